@@ -261,6 +261,8 @@ def validate_chain(dg, offset, chain):
     lat = dict(chain)
     if len(set(lines)) != len(lines):
         return False, "duplicate member"
+    if any(x > offset for x in lines):
+        return False, "member line %r is not a line of the kernel (second-iteration node id?)" % (max(lines),)
     for r in lines:
         seq = [r] + [x for x in lines if x > r] + [x + offset for x in lines if x < r] + [r + offset]
         ok = True
@@ -271,7 +273,7 @@ def validate_chain(dg, offset, chain):
                 break
             el = dg.edges[s, d]["latency"]
             src = s - offset if s >= offset else s
-            if el != lat[src]:
+            if src not in lat or el != lat[src]:
                 ok = False
                 break
             total += el
